@@ -394,6 +394,9 @@ pub struct Snap {
     pub storage_addr: usize,
     /// guard bytes around the vector object intact
     pub object_guards_ok: bool,
+    /// first spare-capacity slot holding bytes that are neither the poison the harness put there,
+    /// fresh-storage fill, a destroyed value, nor a whole element copy
+    pub spare_bad: Option<usize>,
 }
 
 /// The object-safe face of a generic world.
